@@ -209,7 +209,7 @@ def run_scenario(run: Run, scen: dict, rng: random.Random):
 
 
 def check(run: Run, tier: str, seed: int):
-    n = 120 if tier == "quick" else 1500
+    n = 240 if tier == "quick" else 1500
     for i in range(n):
         cls, opts, semirings = CLASSES[i % len(CLASSES)]
         srng = random.Random(f"C02-{seed}-{i}")
